@@ -116,6 +116,7 @@ ROUND3B = {
     "C20": " unterminated_line_then_directive, C20_merge_bytes (fix D97).",
 }
 ROUND4 = {
+    "C05": " Round four: C05_run_uncreate (-R of a creating patch removes the file) and C05_roundtrip_create (create, then -R: every path of the tree is back), about runPatch.",
     "C04": " Round four: C04_run_delete_leftover (a removal whose target holds more than it removes: every hunk applies, exit 1, the file keeps exactly what is "
            "left, no reject), family + tie T8-removal-leftover.",
     "C10": " Round four: standard input delivered in pieces (short reads on fd 0; scenario two-files-stdin-in-pieces, seeded change C10-m5).",
